@@ -90,7 +90,7 @@ func VerifC11SymLen() {
 func VerifC11Wire() {
 	vSetOpt("symIndex", 1)
 	S := 13
-	conn := &Conn{cfg: &Config{SplitLen: S, Flood: true}, out: make(chan string, 64)}
+	conn := vBareConn(&Config{SplitLen: S, Flood: true}, false)
 	which := vLen("method", 0, 5)
 	n := vLen("n", 0, S+vParam("EXTRA", 6))
 	msg := vGenText("msg", n)
